@@ -50,10 +50,12 @@ struct World
     std::shared_ptr<RecordingValidator> rec;
     std::unique_ptr<Problem> P;
     std::vector<std::array<double, 2>> wp;  // waypoints
-    World(const std::string &map)
+    std::string spaceName;
+    World(const std::string &map, const std::string &space = "R2") : spaceName(space)
     {
         Cfg c;
         c.map = map;
+        c.space = space;
         c.planner = "RRT";
         c.goal = "states";  // sampleable goal with two states (for findBetterGoal)
         c.threshold = 0.3;
@@ -79,7 +81,7 @@ struct World
     }
     void set(ob::State *s, int i)
     {
-        setXY(P->space.get(), s, wp[i][0], wp[i][1], 0);
+        setXY(P->space.get(), s, wp[i][0], wp[i][1], spaceName == "R2" ? 0 : 0.9 * i - 2.0);  // car-like spaces: a different heading per waypoint
     }
 };
 
@@ -400,9 +402,13 @@ static void runRoutine(const std::string &map, const std::string &routine, const
 }
 
 // deterministic densification: interpolate(), interpolate(count), subdivide
-static void runDensify(const std::string &map, const vf::Args &a, vf::Report &rep)
+static void runDensify(const std::string &map, const vf::Args &a, vf::Report &rep, const std::string &space = "R2")
 {
-    World W(map);
+    World W(map, space);
+    // car-like spaces: interpolation is NOT symmetric (interpolate(a,b,t) != interpolate(b,a,1-t) for plain Dubins), lengths carry the
+    // solver's own tolerance
+    const std::string sfx = space == "R2" ? "" : "|" + space;
+    const double ltol = space == "R2" ? 1e-9 : 1e-6;
     auto &P = *W.P;
     auto &sp = P.space;
     int nw = W.wp.size();
@@ -423,7 +429,7 @@ static void runDensify(const std::string &map, const vf::Args &a, vf::Report &re
                 std::string s = "[";
                 for (size_t i = 0; i < p.size(); ++i)
                     s += (i ? "," : "") + std::to_string(p[i]);
-                return "{\"map\":" + vf::jesc(map) + ",\"routine\":\"densify\",\"op\":" + vf::jesc(op) + ",\"count\":" + std::to_string(count) + ",\"path\":" + s + "]}";
+                return "{\"map\":" + vf::jesc(map) + ",\"routine\":\"densify\",\"space\":" + vf::jesc(space) + ",\"op\":" + vf::jesc(op) + ",\"count\":" + std::to_string(count) + ",\"path\":" + s + "]}";
             };
             auto contains = [&](const og::PathGeometric &q, const std::string &op, int count) {
                 // original vertices appear in order
@@ -434,13 +440,13 @@ static void runDensify(const std::string &map, const vf::Args &a, vf::Report &re
                         ++j;
                     if (j == q.getStateCount())
                     {
-                        rep.fail("C17|densify|" + op + "|vertex-lost", "original vertex " + std::to_string(i) + " is missing (or out of order) after " + op, rj(op, count));
+                        rep.fail("C17|densify|" + op + "|vertex-lost" + sfx, "original vertex " + std::to_string(i) + " is missing (or out of order) after " + op, rj(op, count));
                         return;
                     }
                     ++j;
                 }
-                if (std::fabs(q.length() - orig.length()) > 1e-9 * (1 + orig.length()))
-                    rep.fail("C17|densify|" + op + "|length-changed", "length went from " + vf::jnum(orig.length()) + " to " + vf::jnum(q.length()), rj(op, count));
+                if (std::fabs(q.length() - orig.length()) > ltol * (1 + orig.length()))
+                    rep.fail("C17|densify|" + op + "|length-changed" + sfx, "length went from " + vf::jnum(orig.length()) + " to " + vf::jnum(q.length()), rj(op, count));
             };
             for (int count = (int)p.size(); count <= (int)p.size() + 6; ++count)
             {
@@ -449,7 +455,7 @@ static void runDensify(const std::string &map, const vf::Args &a, vf::Report &re
                 rep.evaluations++;
                 rep.transitions++;
                 if ((int)q.getStateCount() != count && p.size() >= 2)
-                    rep.fail("C17|densify|interpolate-count|count", "interpolate(" + std::to_string(count) + ") on " + std::to_string(p.size()) + " states produced " + std::to_string(q.getStateCount()) + " states", rj("interpolate-count", count));
+                    rep.fail("C17|densify|interpolate-count|count" + sfx, "interpolate(" + std::to_string(count) + ") on " + std::to_string(p.size()) + " states produced " + std::to_string(q.getStateCount()) + " states", rj("interpolate-count", count));
                 contains(q, "interpolate-count", count);
                 vf::Hash h;
                 h.adds(rj("c", count));
@@ -466,13 +472,13 @@ static void runDensify(const std::string &map, const vf::Args &a, vf::Report &re
                 for (size_t i = 0; i + 1 < orig.getStateCount(); ++i)
                     want += std::max(1u, sp->validSegmentCount(orig.getState(i), orig.getState(i + 1)));
                 if (orig.getStateCount() >= 2 && q.getStateCount() != want)
-                    rep.fail("C17|densify|interpolate|count", "interpolate() produced " + std::to_string(q.getStateCount()) + " states, expected " + std::to_string(want), rj("interpolate", 0));
+                    rep.fail("C17|densify|interpolate|count" + sfx, "interpolate() produced " + std::to_string(q.getStateCount()) + " states, expected " + std::to_string(want), rj("interpolate", 0));
                 og::PathGeometric s(orig);
                 s.subdivide();
                 rep.evaluations++;
                 contains(s, "subdivide", 0);
                 if (s.getStateCount() != (orig.getStateCount() < 2 ? orig.getStateCount() : 2 * orig.getStateCount() - 1))
-                    rep.fail("C17|densify|subdivide|count", "subdivide() produced " + std::to_string(s.getStateCount()) + " states from " + std::to_string(orig.getStateCount()), rj("subdivide", 0));
+                    rep.fail("C17|densify|subdivide|count" + sfx, "subdivide() produced " + std::to_string(s.getStateCount()) + " states from " + std::to_string(orig.getStateCount()), rj("subdivide", 0));
             }
             rep.states++;
         }
@@ -584,12 +590,17 @@ int main(int argc, char **argv)
             j.push_back(m + "/densify");
             j.push_back(m + "/hybridize");
         }
+        // asymmetric interpolation. (Reeds-Shepp is not driven here: its distance is not additive along its own curves at
+        // word-selection boundaries - the known finding of C07 / C14 - so "length unchanged" fails there for that reason)
+        j.push_back("empty4/densify-Dubins");
         return j;
     };
     H.run = [](const std::string &job, const vf::Args &a, vf::Report &rep) {
         std::string map = job.substr(0, job.find('/')), r = job.substr(job.find('/') + 1);
         if (r == "densify")
             runDensify(map, a, rep);
+        else if (r.substr(0, 8) == "densify-")
+            runDensify(map, a, rep, r.substr(8));
         else if (r == "hybridize")
             runHybrid(map, a, rep);
         else
@@ -606,7 +617,7 @@ int main(int argc, char **argv)
         vf::Report r;
         std::string rt = v["routine"].s, map = v["map"].s;
         if (rt == "densify")
-            runDensify(map, a, r);
+            runDensify(map, a, r, v.has("space") ? v["space"].s : std::string("R2"));
         else if (rt == "hybridize")
             runHybrid(map, a, r);
         else
